@@ -18,9 +18,12 @@ def set_range(ep, j, new):
         ep["addr_range"] = new
 
 
-def rng_bounds(r, num=1):
+def rng_bounds(r, num=1, isarr=True):
     if "base" in r and "size" in r:
-        return r["base"], r["base"] + r["size"] * num, r["size"]
+        # a single endpoint written as slot idx of a base/size grid owns [base + idx*size, +size); for an array the
+        # written idx is overwritten per element
+        lo = r["base"] + (0 if isarr else (r.get("idx") or 0) * r["size"])
+        return lo, lo + r["size"] * num, r["size"]
     if "start" in r and "end" in r:
         return r["start"], r["end"], r["end"] - r["start"]
     return r["start"], r["start"] + r["size"], r["size"]
@@ -40,15 +43,15 @@ def inject(desc):
     for a in sbr:
         for b in sbr:
             if a != b and eps[a].get("array") is None:
-                lo, hi, sz = rng_bounds(ranges(eps[b])[0], 1)
+                lo, hi, sz = rng_bounds(ranges(eps[b])[0], 1, eps[b].get("array") is not None)
                 d = copy.deepcopy(desc)
                 set_range(d["endpoints"][a], 0, {"start": lo, "end": lo + max(1, sz // 2)})
                 add(d, "overlapping-ranges", f"endpoints[{a}] onto endpoints[{b}]")
     for i in sbr:
         e = eps[i]
         for j, r in enumerate(ranges(e)):
-            lo, hi, sz = rng_bounds(r)
             isarr = e.get("array") is not None
+            lo, hi, sz = rng_bounds(r, 1, isarr)
             # 2 empty
             d = copy.deepcopy(desc)
             set_range(d["endpoints"][i], j, {"base": lo, "size": 0} if isarr else {"start": lo, "end": lo})
@@ -216,4 +219,14 @@ def inject(desc):
                     c2["dst"] = "intruder"
                 d["connections"].append(c2)
                 add(d, "two-links-on-one-port", f"copy of connections[{i}]")
+                # the same clash on every other port number (North is port 0: a truthiness test would miss it): both
+                # connections name that direction; whether the port is free or holds a mesh link, the second link on it
+                # must be refused
+                for dname in ("North", "East", "South", "West", "Eject"):
+                    if dname == c[k]:
+                        continue
+                    d3 = copy.deepcopy(d)
+                    d3["connections"][i][k] = dname
+                    d3["connections"][-1][k] = dname
+                    add(d3, "two-links-on-one-port", f"copy of connections[{i}] on {dname}")
     return out
